@@ -202,8 +202,8 @@ def eval_monad_groupby(a, backend):
     arr = backend.kg_asarray(a)
     if backend.array_size(arr) == 0:
         return arr
-    vals, inverse = bknp.unique(arr, return_inverse=True)
-    groups = [bknp.where(inverse == i)[0] for i in range(len(vals))]
+    vals, first, inverse = bknp.unique(arr, return_index=True, return_inverse=True)
+    groups = [bknp.where(inverse == i)[0] for i in bknp.argsort(first)]  # in order of first appearance
     return backend.kg_asarray(groups)
 
 
